@@ -378,6 +378,40 @@ func init() {
 			}
 		}
 
+		// an orphan whose parent never arrives is retried until it is given up (an error path of the buffer);
+		// the next orphan, its retries and ordinary proposals must still go through
+		{
+			w, n := buildChain(c, 6, spice.Melange{Currency: 100})
+			info := map[string]interface{}{"section": "wedge", "op": "orphan-given-up"}
+			c.Mark(info)
+			sealer := w.wallets[0]
+			mkOrphan := func(tag byte) accountant.Vertex {
+				t := w.NewTrx(w.wallets[1], w.wallets[0].Address(), spice.Melange{}, []byte{tag, 'o'})
+				v, _ := accountant.NewVertex(t, [32]byte{tag, 1, 2, 3}, [32]byte{tag, 1, 2, 3}, 9, sealer)
+				return v
+			}
+			o1 := mkOrphan(1)
+			r := withDeadline(20*time.Second, func() {
+				n.ab.AddLeaf(context.Background(), &o1)
+				for i := 0; i < 40; i++ { // more than the 25 retries an orphan gets
+					if _, had, _ := n.ab.VerifRetryParked(context.Background()); !had {
+						break
+					}
+				}
+				o2 := mkOrphan(2)
+				n.ab.AddLeaf(context.Background(), &o2)
+				n.ab.VerifRetryParked(context.Background())
+			})
+			c.Rep.Evals++
+			c.Count("orphan-given-up." + r[:2])
+			c.Distinct("orphan-given-up")
+			if r != "ok" {
+				c.Violate("C08", "wedge-after-orphan-given-up", "an orphan was retried until the buffer gave it up, then a second orphan was delivered: "+r, info)
+				return nil
+			}
+			w.probe(n, "orphan-given-up", info)
+			w.Close()
+		}
 		// a real truncation (the "cut found" early exit of the first walk, then the persisting and deleting
 		// walks) on a chain longer than the truncation distance: it must return and leave the ledger usable
 		{
